@@ -33,51 +33,125 @@ fn str_array(t: &str, vals: Vec<Option<String>>) -> (DataType, ArrayRef) {
 }
 
 fn file_batch(f: &Value, pool: &[String]) -> RecordBatch {
+    use arrow::buffer::{NullBuffer, OffsetBuffer};
     let v = &f["v"];
+    // logical row <<a, b, s, p, q, sn, u, t, m>>
     let rows = spec_rows(&f["rows"], pool);
+    let n = rows.len();
     let ints = |c: usize| rows.iter().map(|r| r[c].as_i64()).collect::<Vec<_>>();
     let strs = |c: usize| rows.iter().map(|r| r[c].as_str().map(|s| s.to_string())).collect::<Vec<_>>();
     let mut cols: Vec<(String, DataType, ArrayRef)> = vec![];
     if v["ha"] == true { let (t, a) = int_array(v["ta"].as_str().unwrap(), ints(0)); cols.push(("a".into(), t, a)); }
     if v["hb"] == true { let (t, a) = int_array(v["tb"].as_str().unwrap(), ints(1)); cols.push(("b".into(), t, a)); }
-    if v["hs"] == true { let (t, a) = str_array(v["ts"].as_str().unwrap(), strs(2)); cols.push(("s".into(), t, a)); }
-    if v["hst"] == true {
+    if v["hs"] == true {
+        let (t, a) = match v["ts"].as_str().unwrap() {
+            "dict" => {
+                let t = DataType::Dictionary(Box::new(DataType::Int32), Box::new(DataType::Utf8));
+                let a = arrow::compute::cast(&(Arc::new(StringArray::from(strs(2))) as ArrayRef), &t).unwrap();
+                (t, a)
+            }
+            o => str_array(o, strs(2)),
+        };
+        cols.push(("s".into(), t, a));
+    }
+    // struct{p,q,r?} fields in the file's order
+    let struct_fields = |with_in: bool| -> Vec<(Arc<Field>, ArrayRef)> {
         let mut fs: Vec<(Arc<Field>, ArrayRef)> = vec![];
         for ch in v["stv"].as_str().unwrap().chars() {
             match ch {
                 'p' => fs.push((Arc::new(Field::new("p", DataType::Int64, true)), Arc::new(Int64Array::from(ints(3))))),
                 'q' => fs.push((Arc::new(Field::new("q", DataType::Utf8, true)), Arc::new(StringArray::from(strs(4))))),
-                _ => fs.push((Arc::new(Field::new("r", DataType::Int64, true)), Arc::new(Int64Array::from(vec![Some(7i64); rows.len()])))),
+                _ => fs.push((Arc::new(Field::new("r", DataType::Int64, true)), Arc::new(Int64Array::from(vec![Some(7i64); n])))),
             }
         }
-        let sa = StructArray::from(fs);
+        let inv = v["inv"].as_str().unwrap();
+        if with_in && inv != "none" {
+            let mut inner: Vec<(Arc<Field>, ArrayRef)> = vec![];
+            for ch in inv.chars() {
+                match ch {
+                    'u' => inner.push((Arc::new(Field::new("u", DataType::Int64, true)), Arc::new(Int64Array::from(ints(6))))),
+                    'w' => inner.push((Arc::new(Field::new("w", DataType::Int64, true)), Arc::new(Int64Array::from(ints(1))))),
+                    _ => inner.push((Arc::new(Field::new("z", DataType::Utf8, true)), Arc::new(StringArray::from(vec![Some("z"); n])))),
+                }
+            }
+            let sa = StructArray::from(inner);
+            fs.insert(fs.len() / 2, (Arc::new(Field::new("in", sa.data_type().clone(), true)), Arc::new(sa)));
+        }
+        fs
+    };
+    if v["hst"] == true {
+        let fs = struct_fields(true);
+        let fields: Fields = fs.iter().map(|(f, _)| f.clone()).collect::<Vec<_>>().into();
+        let arrays: Vec<ArrayRef> = fs.into_iter().map(|(_, a)| a).collect();
+        let valid: Vec<bool> = rows.iter().map(|r| r[5] != true).collect();
+        let sa = StructArray::try_new(fields, arrays, Some(NullBuffer::from(valid))).unwrap();
         cols.push(("st".into(), sa.data_type().clone(), Arc::new(sa)));
     }
+    if v["hls"] == true {
+        let sa = StructArray::from(struct_fields(false));
+        let item = Arc::new(Field::new("item", sa.data_type().clone(), true));
+        let la = ListArray::try_new(item, OffsetBuffer::from_lengths(std::iter::repeat(1).take(n)), Arc::new(sa), None).unwrap();
+        cols.push(("ls".into(), la.data_type().clone(), Arc::new(la)));
+    }
+    if v["ht"] == true {
+        let sec = ints(7);
+        let a: ArrayRef = match v["tt"].as_str().unwrap() {
+            "s" => Arc::new(TimestampSecondArray::from(sec)),
+            "ms" => Arc::new(TimestampMillisecondArray::from(sec.iter().map(|x| x.map(|y| y * 1000)).collect::<Vec<_>>())),
+            "ms_utc" => Arc::new(TimestampMillisecondArray::from(sec.iter().map(|x| x.map(|y| y * 1000)).collect::<Vec<_>>()).with_timezone("UTC")),
+            "ns" => Arc::new(TimestampNanosecondArray::from(sec.iter().map(|x| x.map(|y| y * 1_000_000_000)).collect::<Vec<_>>())),
+            _ => Arc::new(TimestampMicrosecondArray::from(sec.iter().map(|x| x.map(|y| y * 1_000_000)).collect::<Vec<_>>())),
+        };
+        cols.push(("t".into(), a.data_type().clone(), a));
+    }
+    if v["hm"] == true {
+        let (p, sc) = match v["tm"].as_str().unwrap() { "5_1" => (5u8, 1i8), "7_2" => (7, 2), _ => (10, 2) };
+        let a = Decimal128Array::from(ints(8).iter().map(|x| x.map(|y| (y as i128) * 10i128.pow(sc as u32))).collect::<Vec<_>>())
+            .with_precision_and_scale(p, sc).unwrap();
+        cols.push(("m".into(), a.data_type().clone(), Arc::new(a)));
+    }
     if v["extra"] == true || cols.is_empty() {
-        cols.push(("x".into(), DataType::Int64, Arc::new(Int64Array::from(vec![Some(99i64); rows.len()]))));
+        cols.push(("x".into(), DataType::Int64, Arc::new(Int64Array::from(vec![Some(99i64); n]))));
     }
     // column order: rotate / reverse by the permutation code
     let code = v["order"].as_u64().unwrap() as usize;
-    let n = cols.len();
-    cols.rotate_left(code % n);
+    let k = cols.len();
+    cols.rotate_left(code % k);
     if code >= 3 { cols.reverse(); }
     let schema = Arc::new(Schema::new(cols.iter().map(|(n, t, _)| Field::new(n, t.clone(), true)).collect::<Vec<_>>()));
     RecordBatch::try_new(schema, cols.into_iter().map(|c| c.2).collect()).unwrap()
 }
 
-fn table_schema() -> Arc<Schema> {
+fn table_schema(view: bool) -> Arc<Schema> {
+    use arrow::datatypes::TimeUnit;
+    let inner = DataType::Struct(Fields::from(vec![Field::new("u", DataType::Int64, true), Field::new("w", DataType::Int64, true)]));
+    let pq = |with_in: bool| {
+        let mut f = vec![Field::new("p", DataType::Int64, true), Field::new("q", DataType::Utf8, true)];
+        if with_in { f.push(Field::new("in", inner.clone(), true)); }
+        DataType::Struct(Fields::from(f))
+    };
     Arc::new(Schema::new(vec![
         Field::new("a", DataType::Int64, true),
         Field::new("b", DataType::Int32, true),
-        Field::new("s", DataType::Utf8, true),
-        Field::new("st", DataType::Struct(Fields::from(vec![Field::new("p", DataType::Int64, true), Field::new("q", DataType::Utf8, true)])), true),
+        Field::new("s", if view { DataType::Utf8View } else { DataType::Utf8 }, true),
+        Field::new("st", pq(true), true),
+        Field::new("ls", DataType::List(Arc::new(Field::new("item", pq(false), true))), true),
+        Field::new("t", DataType::Timestamp(TimeUnit::Microsecond, None), true),
+        Field::new("m", DataType::Decimal128(10, 2), true),
     ]))
 }
 
+/// specification row -> query row (t in microseconds)
+fn out_rows(v: &Value, pool: &[String]) -> Vec<Vec<Value>> {
+    spec_rows(v, pool).into_iter().map(|mut r| { if let Some(x) = r[10].as_i64() { r[10] = json!(x * 1_000_000); } r }).collect()
+}
+const OUT: &str = "a, b, s, st['p'], st['q'], (st IS NULL), st['in']['u'], st['in']['w'], ls[1]['p'], ls[1]['q'], CAST(t AS BIGINT), CAST(m AS BIGINT)";
+
 async fn one_case(acc: &mut Acc, case: &Value) {
     let pool = pool_of(case);
-    let expected = spec_rows(&case["expect"], &pool);
-    let all = spec_rows(&case["all"], &pool);
+    let expected = out_rows(&case["expect"], &pool);
+    let all = out_rows(&case["all"], &pool);
+    let view = case["tview"].as_bool().unwrap_or(false);
     let pred = case["sql"].as_str().unwrap();
     let mem: Arc<dyn ObjectStore> = Arc::new(InMemory::new());
     for (i, f) in case["files"].as_array().unwrap().iter().enumerate() {
@@ -86,6 +160,13 @@ async fn one_case(acc: &mut Acc, case: &Value) {
         let data = crate::c24::write_parquet(&b, &lay);
         mem.put(&Path::from(format!("t/f{i}.parquet")), PutPayload::from(Bytes::from(data))).await.unwrap();
     }
+    for f in case["files"].as_array().unwrap() {
+        let v = &f["v"];
+        for k in ["ta", "tb", "ts", "stv", "inv", "tt", "tm"] { acc.bump(&format!("variant_{k}_{}", v[k].as_str().unwrap()), 1); }
+        for k in ["ha", "hb", "hs", "hst", "hls", "ht", "hm", "extra"] { if v[k] != true { acc.bump(&format!("variant_without_{k}"), 1); } }
+        if f["rows"].as_array().unwrap().iter().any(|r| r[5]["v"] == 1) && v["hst"] == true { acc.bump("files_with_null_struct_rows", 1); }
+    }
+    if view { acc.bump("table_with_utf8view", 1); }
     for cfg_bits in case["configs"].as_array().unwrap() {
         let mut cfg = SessionConfig::new().with_target_partitions(cfg_bits["tp"].as_u64().unwrap_or(1) as usize).with_batch_size(3);
         for s in ["pushdown_filters", "reorder_filters", "enable_page_index", "pruning", "schema_force_view_types"] {
@@ -95,13 +176,13 @@ async fn one_case(acc: &mut Acc, case: &Value) {
         ctx.register_object_store(&url::Url::parse("mem://c44").unwrap(), mem.clone());
         let url = ListingTableUrl::parse("mem://c44/t/").unwrap();
         let opts = ListingOptions::new(Arc::new(ParquetFormat::default())).with_file_extension(".parquet");
-        let config = ListingTableConfig::new(url).with_listing_options(opts).with_schema(table_schema());
+        let config = ListingTableConfig::new(url).with_listing_options(opts).with_schema(table_schema(view));
         let base = json!({"kind":"schema","case":case,"config":cfg_bits});
         let table = match ListingTable::try_new(config) { Ok(t) => t, Err(e) => { acc.tool_errors.push(format!("table: {e}")); return; } };
         ctx.register_table("t", Arc::new(table)).unwrap();
         for (sql, want, kind) in [
-            (format!("SELECT a, b, s, st['p'], st['q'] FROM t WHERE {pred}"), &expected, "filter"),
-            ("SELECT a, b, s, st['p'], st['q'] FROM t".to_string(), &all, "all"),
+            (format!("SELECT {OUT} FROM t WHERE {pred}"), &expected, "filter"),
+            (format!("SELECT {OUT} FROM t"), &all, "all"),
             (format!("SELECT s, a FROM t WHERE {pred}"), &expected, "proj"),
         ] {
             acc.evaluations += 1;
@@ -125,7 +206,8 @@ async fn one_case(acc: &mut Acc, case: &Value) {
                     if kind != "proj" {
                         if let Some(b) = batches.first() {
                             let t: Vec<DataType> = b.schema().fields().iter().map(|f| f.data_type().clone()).collect();
-                            let ok = t[0] == DataType::Int64 && t[1] == DataType::Int32 && matches!(t[2], DataType::Utf8 | DataType::Utf8View) && t[3] == DataType::Int64 && matches!(t[4], DataType::Utf8 | DataType::Utf8View);
+                            let ok = t[0] == DataType::Int64 && t[1] == DataType::Int32 && (if view { t[2] == DataType::Utf8View } else { matches!(t[2], DataType::Utf8 | DataType::Utf8View) })
+                                && t[3] == DataType::Int64 && matches!(t[4], DataType::Utf8 | DataType::Utf8View) && t[6] == DataType::Int64 && t[8] == DataType::Int64;
                             if !ok { type_problem = Some(format!("{t:?}")); }
                         }
                     }
